@@ -63,7 +63,7 @@ def r1_delegation(prog, rep: Report, fam: Family, mut: Cls, lines: str):
                   f"`{src(node)}` does not use the unmodified index/value parameters ({idx!r}, {val!r})",
                   scenario="negative indices, insert beyond the end and IndexError must be Python's list semantics: a transformed "
                            "index edits another line", line=node.lineno)
-    g = prog.method(mut, "_get_item")
+    g = prog.method(mut, fam.item_getter)
     rep.fn(g)
     n = g.params[1]
     flow = Flow(g.node)
@@ -80,7 +80,7 @@ def r1_delegation(prog, rep: Report, fam: Family, mut: Cls, lines: str):
                 ret_entry = any(isinstance(r, ast.Return) and src(r.value) == entry for r in st.body)
                 rest = [r for r in returns_of(g.node) if not any(r is x for s in st.body for x in ast.walk(s))]
                 ret_read = any(isinstance(r.value, ast.Call) and isinstance(r.value.func, ast.Attribute)
-                               and r.value.func.attr == "_read_line" and [src(a) for a in r.value.args] == [n] for r in rest)
+                               and r.value.func.attr == fam.raw_reader and [src(a) for a in r.value.args] == [n] for r in rest)
                 ok = ret_entry and ret_read
     index_guards(prog, rep, mut, "C12.R1")
     rep.check("C12.R1", g, "read-path", ok, f"returns self.{lines}[n] when it is a str, else reads line n through its offset",
@@ -310,7 +310,8 @@ def record_save_check(prog, rep: Report, rule: str, rec: Cls, w: Func, lines: st
                     is_int = int_test and src(t.args[1]) == "int"
                     is_str = int_test and src(t.args[1]) == "str"
                     raw, mem = (e.body, e.orelse) if is_int else (e.orelse, e.body)
-                    raw_ok = isinstance(raw, ast.Call) and src(raw.func).endswith("._get_item") and [src(a) for a in raw.args][-1] == i \
+                    raw_ok = isinstance(raw, ast.Call) and isinstance(raw.func, ast.Attribute) and [src(a) for a in raw.args][-1] == i \
+                        and raw.func.attr in {m_ for k_ in rec.repo_mro() for m_ in k_.methods} and "load" not in raw.func.attr \
                         and "Record" not in src(raw.func).split(".")[0].replace("RandomLineAccessFile", "")
                     ok = (is_int or is_str) and raw_ok and src(mem) == x
         ok = ok and [src(a) for a in calls[0].args[1:]] == [rs.params[1], rs.params[2]]
@@ -324,7 +325,7 @@ def r4_save(prog, rep: Report, fam: Family, mut: Cls, rec: Cls, lines: str):
              "the table resolving offsets through the raw reader (record) to the writer, which writes each line once with "
              "end=<line_ending> to the output, opened 'w' only when it is a path", floor=3)
     sv = prog.method(mut, "save")
-    w = prog.method(mut, "_save_from_iter")
+    w = writer_method(prog, mut)
     rep.fn(sv, w)
     out, le = sv.params[1], sv.params[2]
     calls = [c for c in calls_in(sv.node) if isinstance(c.func, ast.Attribute) and c.func.attr == w.name]
@@ -453,6 +454,18 @@ def index_guards(prog, rep: Report, mut: Cls, rule: str):
                                        "list accepts the index", line=n.lineno)
                 except NotAFormula as e:
                     rep.unrec(rule, g, f"index-guard:{name}", f"index validation `{src(n.test)}` not evaluable: {e}", n.lineno)
+
+
+def writer_method(prog, mut: Cls) -> Func:
+    """the method save() hands (self, out, line_ending) to"""
+    sv = prog.method(mut, "save")
+    for c in calls_in(sv.node):
+        if isinstance(c.func, ast.Attribute) and isinstance(c.func.value, ast.Name) and c.func.value.id == sv.self_name \
+                and len(c.args) == 3 and src(c.args[0]) == sv.self_name:
+            m = prog.resolve(mut, c.func.attr)
+            if m is not None:
+                return m
+    raise AnalysisError("save() of the mutable line files does not hand (self, out, line_ending) to a writer method")
 
 
 def r5_readonly(prog, rep: Report, fam: Family):
